@@ -2,6 +2,7 @@ package main
 
 import (
 	"hash/fnv"
+	"math/big"
 	"strings"
 )
 
@@ -14,11 +15,69 @@ func runTri(c *Case) []string {
 	prop, op := c.Args[0], c.Args[1]
 	args := c.Args[2:]
 	var obs [3][]string
+	if shared, ok := triSharedArgs(op, args); ok {
+		obs = shared
+	} else {
+		obs = triSeparate(prop, op, args)
+	}
+	return triVerdict(obs)
+}
+
+// triSharedArgs: for the constructors taking *big.Int / *big.Rat the SAME argument object is handed to the three
+// versions in turn (identical inputs in the strictest sense) and the digits are read only after all three Numbers
+// exist: no version may alter or keep using what it was given.
+func triSharedArgs(op string, args []string) (obs [3][]string, ok bool) {
+	switch op {
+	case "SqrtBigInt", "CubeRootBigInt", "SqrtBigRat", "CubeRootBigRat", "FromBigRat":
+	default:
+		return obs, false
+	}
+	num, _ := new(big.Int).SetString(args[0], 10)
+	den, _ := new(big.Int).SetString(args[1], 10)
+	depth := atoi(args[2])
+	if num == nil || den == nil || den.Sign() <= 0 || num.Sign() < 0 {
+		return obs, false // the panicking argument classes are compared by the separate runs
+	}
+	var rat *big.Rat
+	if op != "SqrtBigInt" && op != "CubeRootBigInt" {
+		rat = new(big.Rat).SetFrac(num, den)
+	}
+	mk := func(ver string) (x Num) {
+		defer func() {
+			if e := recover(); e != nil {
+				x = nil
+			}
+		}()
+		return makeRootShared(ver, op, num, rat)
+	}
+	var xs [3]Num
+	for i, v := range allVers {
+		xs[i] = mk(v)
+	}
+	for i := range xs {
+		if xs[i] == nil {
+			obs[i] = []string{"PANIC"}
+			continue
+		}
+		func() {
+			defer func() {
+				if e := recover(); e != nil {
+					obs[i] = []string{"PANIC"}
+				}
+			}()
+			obs[i] = observeDigits(xs[i], depth)
+		}()
+	}
+	return obs, true
+}
+
+func triSeparate(prop, op string, args []string) (obs [3][]string) {
 	for i, v := range allVers {
 		cc := Case{Prop: prop, Ver: v, Op: op, Args: args}
 		r, ok := runners[prop+"/"+op]
 		if !ok {
-			return []string{"NOOP"}
+			obs[i] = []string{"NOOP"}
+			continue
 		}
 		func() {
 			defer func() {
@@ -29,6 +88,10 @@ func runTri(c *Case) []string {
 			obs[i] = r(&cc)
 		}()
 	}
+	return obs
+}
+
+func triVerdict(obs [3][]string) []string {
 	a, b, d := strings.Join(obs[0], " "), strings.Join(obs[1], " "), strings.Join(obs[2], " ")
 	if a == b && b == d {
 		h := fnv.New64a()
@@ -89,6 +152,13 @@ func genC18(tier string, r *Rng, emit func(Case)) {
 	generators["C09"](sub, r, tri("C09"))
 	generators["C10"](sub, r, tri("C10"))
 	generators["C11"](sub, r, tri("C11"))
+	// view contents: the view histories of C07 (boundary grid and chains, all three versions in turn) against the
+	// one model of views - a version that treats an argument differently from the others shows up here
+	generators["C07"](sub, r, func(c Case) {
+		if c.Op == "Hist" && r.Intn(3) == 0 {
+			emit(Case{Ver: c.Ver, Op: "VHist", Args: c.Args})
+		}
+	})
 	// depth: roots and rationals far beyond what the model-side oracle reaches on every case
 	depth := 3000
 	nrad := 10
@@ -122,5 +192,5 @@ func genC13ratOnly(tier string, r *Rng, emit func(Case)) {
 }
 
 func init() {
-	register("C18", genC18, map[string]runner{"Tri": runTri})
+	register("C18", genC18, map[string]runner{"Tri": runTri, "VHist": runHist})
 }
